@@ -29,14 +29,25 @@ inductive Kind where
     (the 20 bytes that follow the xid) -/
 def rpcSuccessHdr : Bytes := [0, 0, 0, 1,  0, 0, 0, 0,  0, 0, 0, 0,  0, 0, 0, 0,  0, 0, 0, 0]
 
-/-- a domain name as the responder delimits it: everything up to and including the first 0x00 -/
-def nameEnd : Bytes → Option (Bytes × Bytes)
-  | [] => none
-  | b :: t =>
-    if b = 0 then some ([0], t)
-    else match nameEnd t with
+/-- a domain name as the responder delimits it (after the repair of the DNS dissectors, and as RFC 1035
+    does): label by label — a length octet, then that many octets of ANY value — up to and including the
+    zero length octet.  `left` = octets of the current label still to come.
+    (Before the repair this was "everything up to and including the first 0x00"; with a 0x00 inside a label
+    that reading cuts the echoed names of a reply in the wrong place, so RDLENGTH+RDATA would not be what
+    gets blanked.) -/
+def nameEndL : Nat → Bytes → Option (Bytes × Bytes)
+  | _, [] => none
+  | left, b :: t =>
+    if left > 0 then
+      match nameEndL (left - 1) t with
       | none => none
       | some (n, r) => some (b :: n, r)
+    else if b = 0 then some ([0], t)
+    else match nameEndL b.toNat t with
+      | none => none
+      | some (n, r) => some (b :: n, r)
+
+def nameEnd (d : Bytes) : Option (Bytes × Bytes) := nameEndL 0 d
 
 /-- `n` questions (name, type, class) are kept entirely; returns them and what follows -/
 def keepQs : Nat → Bytes → Option (Bytes × Bytes)
